@@ -60,10 +60,37 @@ def rule_entropy(S, res):
     fg = S.fg
     # (1) floors
     counts = defaultdict(int)
+    own = defaultdict(int)
     for k, b in engine_bodies(fg):
         for bi, t in b.calls():
             if bi in b.live_blocks() and is_entropy_call(t):
-                counts[b.owner.replace("polytune::", "")] += 1
+                own[b.owner] += 1
+    # entropy drawn in helper functions (no channel effects of their own) counts for the caller, so
+    # moving `Delta(random())` into a helper stays silent
+    from r7 import bodies_with_channel_effect
+    eff_owners = {fg.bodies[k].owner for k in bodies_with_channel_effect(S)}
+    floor_owners = {"polytune::" + f for f in ENTROPY_FLOOR}
+    for fn in ENTROPY_FLOOR:
+        owner = "polytune::" + fn
+        roots = [k for k, b in fg.bodies.items() if b.owner == owner]
+        seen = set(roots)
+        st = list(roots)
+        total = own.get(owner, 0)
+        counted = {owner}
+        while st:
+            x = st.pop()
+            for y in S.cg.out.get(x, ()):
+                if y in seen:
+                    continue
+                oy = fg.bodies[y].owner
+                if oy != owner and (oy in eff_owners or oy in floor_owners):
+                    continue
+                seen.add(y)
+                st.append(y)
+                if oy not in counted:
+                    counted.add(oy)
+                    total += own.get(oy, 0)
+        counts[fn] = total
     for fn, floor in ENTROPY_FLOOR.items():
         got = counts.get(fn, 0)
         inst = "entropy|%s" % fn.rsplit("::", 1)[-1] if "<" not in fn else "entropy|%s" % fn
